@@ -123,6 +123,15 @@ def eval_case(c):
         n2 = np.array([cx.semi_a2orbital_motion(float(v), Mh, mt) for v in a1])
         if ulps(n1, n2) > 16:
             V('twin-semi_a2orbital_motion', f'twins differ by {ulps(n1,n2):.1f} ulp')
+        # element values must not depend on how the caller packs the array (2-D, length-1, 0-d); interpreted/numba converters
+        from harness.shapes import shape_call
+        xs = x[:12]
+        for f in ('rads2days', 'days2rads', 'sec2myr', 'myr2sec', 'm2Au', 'Au2m'):
+            for i_ in shape_call(getattr(cp, f), (xs,), [0], counters=cnt):
+                V(f'{f}-' + i_.split(':')[0], f'{f}: ' + i_)
+        for f, arg in (('orbital_motion2semi_a', n[:12]), ('semi_a2orbital_motion', a1[:12])):
+            for i_ in shape_call(getattr(cp, f), (arg, Mh, mt), [0], counters=cnt):
+                V(f'{f}-' + i_.split(':')[0], f'{f}: ' + i_)
         # compiled converters with a caller-supplied gravitational constant (non-dimensional / cgs use): inverse pair and Kepler III with that constant
         for Gx in (1.0, 6.6743e-8, 4 * math.pi ** 2, float(10 ** rng.uniform(-15, 3))):
             nn = 10 ** rng.uniform(-9, -2, 25)
